@@ -41,7 +41,7 @@ COMPILERS = ["fock", "gaussian", "bosonic"]
 MESHES = ["rectangular", "rectangular_phase_end", "rectangular_symmetric", "triangular", "rectangular_compact",
           "triangular_compact", "sun_compact"]
 UKINDS = ["haar", "haar", "identity", "identity_c", "antiidentity", "perm", "perm_real", "perm_phase", "diag_phase",
-          "diag_pm", "block", "block_perm", "givens2", "real_orth"]
+          "diag_pm", "block", "block_perm", "givens2", "real_orth", "near_identity"]
 
 
 def unitary(rs, n, kind):
@@ -49,6 +49,12 @@ def unitary(rs, n, kind):
         return d17.givens_product(rs, n, 2) if n >= 2 else np.identity(1, dtype=complex)
     if kind == "real_orth":
         return d17.rand_orth(rs, n).astype(complex)
+    if kind == "near_identity":     # exp(i eps H) around the tolerance of the `identity` shortcut (1e-13) and well above it
+        from scipy.linalg import expm
+        H = rs.standard_normal((n, n)) + 1j * rs.standard_normal((n, n))
+        H = (H + H.conj().T) / 2
+        eps = float(rs.choice([3e-14, 3e-13, 1e-11, 1e-9, 1e-6, 1e-4]))
+        return expm(1j * eps * H)
     U = d17.unitary_case(rs, n, kind)
     return np.asarray(U)
 
@@ -111,17 +117,22 @@ def corr_templates(ctx, sf):
     classes = SCALAR1 + SCALAR2 + ["DisplacedSqueezed", "Kgate", "Rgate"]
     for hbar in (2.0, 1.0, 0.7):
         sf.hbar = hbar
-        prog = sf.Program(4)
+        prog = sf.Program(13)
         for cls in classes:
             for _ in range(ctx.n(6, 120)):
                 pars = scalar_pars(rng, cls, small=rng.random() < 0.5)
-                regs = rng.sample(range(4), nmodes(cls))
+                regs = rng.sample(range(13), nmodes(cls))        # descending and multi-digit indices included
                 dagger = cls != "DisplacedSqueezed" and rng.random() < 0.5
                 op = make_op(sf, cls, pars, dagger)
                 try:
                     real = dec02.canon_real(op.decompose([prog.register[i] for i in regs]))
                 except NotImplementedError:
                     real = None
+                except Exception as e:  # noqa: BLE001
+                    ctx.fail(f"raises:decompose:{cls}:{type(e).__name__}", f"{cls}{pars}.decompose raised {type(e).__name__}: {e}",
+                             dict(kind="history", op=dict(cls=cls, pars=pars, dagger=dagger), k=nmodes(cls), regsA=regs,
+                                  regsB=regs, big=13))
+                    continue
                 case = dict(cls=cls, pars=pars, regs=regs, dagger=dagger, hbar=hbar)
                 cases.append((case, real))
                 reqs.append(dict(op="c02.template", cls=cls, atoms=[dec02.fr(a) for a in dec02.input_atoms(cls, pars)],
@@ -211,11 +222,15 @@ def corr_driver(ctx, sf):
             return ("CircuitError", str(e))
         except NotImplementedError as e:
             return ("NotImplementedError", str(e))
+        except ValueError:
+            raise
+        except Exception as e:  # noqa: BLE001
+            return (type(e).__name__, str(e))
 
     for it in range(ctx.n(150, 3000)):
         cname = COMPILERS[it % 3]
         comp = compiler_db[cname]()
-        n = 4
+        n = 13
         ops_ = []
         for _ in range(rng.randint(1, 6)):
             cls = rng.choice(pool)
@@ -230,12 +245,17 @@ def corr_driver(ctx, sf):
                                     regs=o["regs"], dagger=o["dagger"]) for o in ops_]))
         ctx.count(f"driver:scalar:{cname}", spec, True, sample=dict(compiler=cname, spec=spec))
     for it in range(ctx.n(60, 1500)):
-        cname = COMPILERS[it % 3]
+        cname = (COMPILERS + ["Xcov", "Xunitary"])[it % 5]      # the X compilers hand non-empty kwargs down
         comp = compiler_db[cname]()
-        n = 5
+        n = 12
         ops_ = []
         for _ in range(rng.randint(1, 3)):
-            if rng.random() < 0.7:
+            if cname.startswith("X"):
+                kb = rng.choice([1, 2])
+                ops_.append(dict(cls="BipartiteGraphEmbed", regs=rng.sample(range(n), 2 * kb),
+                                 pars=[dec02.enc(np.round(rs.uniform(0.1, 1.0, (kb, kb)), 2))],
+                                 kw=dict(mean_photon_per_mode=0.2, edges=True)))
+            elif rng.random() < 0.7:
                 ops_.append(rand_matrix_op(rng, rs, n))
             else:
                 cls = rng.choice(pool)
@@ -314,7 +334,7 @@ def corr_mesh(ctx, sf):
     cases, reqs = [], []
     for it in range(ctx.n(250, 5000)):
         m = rng.randint(2, 6)
-        big = m + rng.randint(0, 2)
+        big = m + rng.choice([0, 1, 2, 8])
         prog = sf.Program(big)
         regidx = rng.sample(range(big), m)
         reg = [prog.register[i] for i in regidx]
@@ -408,11 +428,11 @@ def prefix_ops(rng, n, fock=False):
 def compare_to_reference(ctx, sf, spec, backend, hbar, rp, sig, what):
     """run spec on a back end and compare all first and second moments with the independent reference"""
     ref = dec02.reference(spec, hbar)
-    want = ref.alpha_N_M()
+    want = dec02.drop_modes(ref.alpha_N_M(), dec02.deleted_modes(spec))
     scale = max(1.0, float(np.max(np.abs(want[1]))), float(np.max(np.abs(want[2]))))
 
     def measure(cut):
-        st = dec02.run_spec(sf, spec, backend, hbar=hbar, cutoff=cut)
+        st = dec02.run_spec(sf, spec, backend, hbar=hbar, cutoff=cut, op_cache=({} if rp.get("shared") else None))
         mom = dec02.state_moments(sf, st, backend, hbar)
         return sim.moment_dist(mom, want), max(1 - mom[3], 0.0)
     try:
@@ -574,6 +594,11 @@ def interferometer_case(ctx, sf, U, mesh, drop, regidx, big, rp, run_backend=Fal
         W = dec02.circuit_unitary(cmds, m, pos)
         err = float(np.max(np.abs(W - U)))
         if err > 1e-8:
+            if mesh == "sun_compact" and rp.get("ukind") == "near_identity" and err < 1e-5:
+                # the factorisation takes its structural shortcuts at the unitarity tolerance it is handed (1e-6)
+                ctx.fail("interferometer:sun_compact:near-identity:shortcuts-at-unitarity-tolerance",
+                         f"sun_compact on exp(i eps H): emitted circuit differs from U by {err:.3g}", rp)
+                return
             ctx.fail(f"interferometer:{mesh}:drop={drop}:{label}-circuit-is-not-U",
                      f"mesh={mesh} drop_identity={drop} size {m} targets {regidx}: the {label} circuit implements a unitary "
                      f"differing from U by {err:.3g}", rp)
@@ -592,13 +617,13 @@ def oracle_interferometer(ctx, sf):
     for mesh in MESHES:
         for drop in (True, False):
             for m in range(3 if mesh == "sun_compact" else 2, 7):
-                kinds = UKINDS if ctx.tier != "quick" else [UKINDS[(it + j) % len(UKINDS)] for j in range(0, 12, 3)]
+                kinds = UKINDS if ctx.tier != "quick" else [UKINDS[(it + j) % len(UKINDS)] for j in range(0, 12, 3)] + ["near_identity"]
                 for kind in kinds:
                     it += 1
                     U = unitary(rs, m, kind)
                     big = m + (it % 2)
                     regidx = rng.sample(range(big), m)
-                    rp = dict(kind="interferometer", U=dec02.enc(U), mesh=mesh, drop=drop, reg=regidx, big=big)
+                    rp = dict(kind="interferometer", U=dec02.enc(U), mesh=mesh, drop=drop, reg=regidx, big=big, ukind=kind)
                     ctx.count(f"interferometer:{mesh}:drop={drop}", dict(m=mesh, d=drop, k=kind, n=m, it=it),
                               kind not in ("identity", "identity_c"),
                               sample=dict(mesh=mesh, drop_identity=drop, size=m, ukind=kind, targets=regidx))
@@ -756,8 +781,6 @@ def oracle_matrix_ops(ctx, sf):
             sv = np.linalg.svd(S, compute_uv=False)
             unsq = int(np.sum(np.abs(sv - 1) < 1e-9)) // 2
             sig = f"gaussian-transform:{skind}:vacuum={vac}"
-            if 2 <= unsq < k:      # the Bloch-Messiah factors themselves are wrong there (C17 known finding)
-                sig = "gaussian-transform:active-with-two-or-more-unsqueezed-modes"
             rp = dict(kind="matrix", mkind=kind, spec=spec, sig=sig, backend="gaussian")
             ctx.count(f"gaussian-transform:{skind}", dict(S=np.round(S, 6).tolist(), r=regs, v=vac), skind != "identity",
                       sample=dict(skind=skind, targets=regs, vacuum=vac))
@@ -791,6 +814,533 @@ def oracle_matrix_ops(ctx, sf):
         matrix_case(ctx, sf, rp)
 
 
+
+# ------------------------------------------------------------------ templates of the matrix operations
+
+def _finite(x):
+    x = float(np.real(x))
+    return x if math.isfinite(x) else 0.0
+
+
+def _mat_name(kid, named):
+    """names of all candidate matrices equal to the kid's matrix (several factors may coincide)"""
+    M = kid.op.p[0]
+    Mn = np.asarray(M)
+    return sorted({name for name, ref in named
+                   if ref is not None and (M is ref or (np.shape(ref) == Mn.shape and np.array_equal(np.asarray(ref), Mn)))})
+
+
+def xcanon_real(kids, named):
+    out = []
+    for k in kids:
+        cls = type(k.op).__name__
+        d = dict(cls=cls, regs=[r.ind for r in k.reg], pars=[], extra={})
+        if cls == "Interferometer":
+            d["extra"] = dict(mat=_mat_name(k, named), mesh=k.op.mesh, drop_identity=bool(k.op.drop_identity), tol=float(k.op.tol))
+        elif cls == "GaussianTransform":
+            d["extra"] = dict(mat=_mat_name(k, named), vacuum=bool(k.op.vacuum))
+        else:
+            d["pars"] = [dec02.pval(x) for x in k.op.p]
+        out.append(d)
+    return out
+
+
+def xsame(model, real):
+    if len(model) != len(real):
+        return f"length {len(model)} vs {len(real)}: {[m['cls'] for m in model]} vs {[r['cls'] for r in real]}"
+    for i, (m, r) in enumerate(zip(model, real)):
+        if m["cls"] != r["cls"] or list(m["regs"]) != r["regs"]:
+            return f"#{i}: {m['cls']}{m['regs']} vs {r['cls']}{r['regs']}"
+        mp = [dec02.unfr(x) for x in m["pars"]]
+        if len(mp) != len(r["pars"]) or any(abs(a - b) > 1e-9 * max(1, abs(a)) for a, b in zip(mp, r["pars"])):
+            return f"#{i} {m['cls']}{m['regs']}: parameters {mp} vs {r['pars']}"
+        for k, v in r["extra"].items():
+            mv = m.get(k)
+            if k == "tol":
+                if abs(dec02.unfr(mv) - v) > 1e-15:
+                    return f"#{i} {m['cls']}: tol {dec02.unfr(mv)} vs {v}"
+            elif (mv not in v) if k == "mat" else (mv != v):
+                return f"#{i} {m['cls']}{m['regs']}: option {k} = {mv} (model) vs {v}"
+    return None
+
+
+def corr_matrix_templates(ctx, sf):
+    """GraphEmbed / BipartiteGraphEmbed / GaussianTransform / Gaussian `_decompose` vs the model templates: emitted
+    classes, targets, parameters and the options (mesh, drop_identity, tol, vacuum) of the nested operations"""
+    import inspect
+    from strawberryfields import ops, decompositions as dec
+    rng, rs = ctx.rng, ctx.nprng(8)
+    sig = inspect.signature(ops.Interferometer.__init__).parameters
+    dflt = dict(mesh=sig["mesh"].default, drop_identity=bool(sig["drop_identity"].default), tol=dec02.fr(sig["tol"].default))
+    dtol = float(ops._decomposition_tol)
+    cases, reqs = [], []
+    for it in range(ctx.n(120, 2400)):
+        kind = ("graph", "bipartite", "gtransform", "gaussian")[it % 4]
+        k = rng.choice([2, 3, 4]) if kind != "bipartite" else rng.choice([2, 4, 6])
+        big = k + rng.choice([0, 1, 9])
+        prog = sf.Program(big)
+        regidx = rng.sample(range(big), k)
+        reg = [prog.register[i] for i in regidx]
+        kw = {}
+        if rng.random() < 0.6:
+            kw["mesh"] = rng.choice(MESHES[:6])
+        case = dict(kind=kind, reg=regidx, kw=dict(kw))
+        try:
+            if kind == "graph":
+                A = np.triu(rs.integers(0, 2, (k, k)).astype(float), 1)
+                A = A + A.T
+                mode = it % 5
+                if mode == 0:
+                    A = np.identity(k)
+                elif mode == 1:           # diagonal graph: U is (a permutation of) the identity
+                    A = np.diag(np.round(rs.uniform(0.2, 1.0, k), 2))
+                elif mode == 2:
+                    A[0, :] = A[:, 0] = 0     # an isolated vertex: one vanishing squeezing value
+                if not A.any():
+                    A[0, -1] = A[-1, 0] = 1.0
+                op = ops.GraphEmbed(A, mean_photon_per_mode=rng.choice([0.2, 1.0]))
+                ident = bool(np.allclose(A, np.identity(k), atol=1e-13, rtol=0))
+                sqv = [] if ident else [[dec02.fr(x), bool(abs(x) >= dtol)] for x in op.sq]
+                uid = True if ident else bool(np.allclose(op.U, np.identity(k), atol=dtol, rtol=0))
+                named = [("U", None if ident else op.U)]
+                req = dict(op="c02.matrix_template", kind=kind, reg=regidx, defaults=dflt, identity=ident, sq=sqv, u_identity=uid)
+                if "mesh" in kw:
+                    req["kw_mesh"] = kw["mesh"]
+                case["A"] = dec02.enc(A)
+            elif kind == "bipartite":
+                N = k // 2
+                B = np.round(rs.uniform(0.1, 1.0, (N, N)), 2)
+                mode = it % 6
+                if mode == 0:
+                    B = np.identity(N)
+                elif mode == 1:
+                    B = np.diag(np.round(rs.uniform(0.2, 1.0, N), 2))
+                elif mode == 2 and N >= 2:
+                    B[0, :] = 0
+                    B[:, 0] = 0
+                    B[0, 0] = 0.0         # an isolated pair: vanishing two-mode squeezing
+                sd, st, mp = rng.random() < 0.5, rng.choice([1e-6, 1e-4]), rng.choice([0.2, 1.0])
+                edges = rng.random() < 0.7
+                Ain = B if edges else np.block([[np.zeros((N, N)), B], [B.T, np.zeros((N, N))]])
+                op = ops.BipartiteGraphEmbed(Ain, mean_photon_per_mode=mp, edges=edges, drop_identity=sd, tol=st)
+                if rng.random() < 0.5:
+                    kw["drop_identity"] = rng.random() < 0.5
+                if rng.random() < 0.4:
+                    kw["tol"] = rng.choice([1e-5, 1e-7])
+                if rng.random() < 0.3:
+                    kw["mean_photon_per_mode"] = 0.5
+                case["kw"] = dict(kw)
+                sqf, U, V = dec.bipartite_graph_embed(B, mean_photon_per_mode=kw.get("mean_photon_per_mode", mp),
+                                                      atol=kw.get("tol", st), rtol=0)
+                named = [("I", np.identity(N)), ("U", U), ("V", V)]
+                req = dict(op="c02.matrix_template", kind=kind, reg=regidx, identity=False, self_drop=sd, self_tol=dec02.fr(st),
+                           sq=[[dec02.fr(x), bool(abs(x) >= dtol)] for x in sqf],
+                           u_identity=bool(np.allclose(U, np.identity(N), atol=dtol, rtol=0)),
+                           v_identity=bool(np.allclose(V, np.identity(N), atol=dtol, rtol=0)))
+                for a, b in (("mesh", "kw_mesh"), ("drop_identity", "kw_drop")):
+                    if a in kw:
+                        req[b] = kw[a]
+                if "tol" in kw:
+                    req["kw_tol"] = dec02.fr(kw["tol"])
+                case.update(B=dec02.enc(B), edges=edges, self_drop=sd)
+            elif kind == "gtransform":
+                skind = rng.choice(["generic", "passive", "identity", "one_unsqueezed", "partial", "signs", "diag", "left_only"])
+                S = d17.symplectic_case(rs, k, skind)
+                vac = rng.random() < 0.4
+                op = ops.GaussianTransform(S, vacuum=vac)
+                sqv = []
+                if op.active:
+                    for e in op.Sq:
+                        le = np.log(e)
+                        sqv.append([bool(abs(e - 1) >= dtol), dec02.fr(_finite(abs(le))), dec02.fr(_finite(np.angle(le)))])
+                named = [("U1", op.U1), ("U2", getattr(op, "U2", None))]
+                req = dict(op="c02.matrix_template", kind=kind, reg=regidx, defaults=dflt, active=bool(op.active), vacuum=vac, sq=sqv)
+                if "mesh" in kw:
+                    req["kw_mesh"] = kw["mesh"]
+                case.update(S=dec02.enc(S), vacuum=vac, skind=skind)
+            else:
+                branch = GAUSS_KINDS[(it // 4) % len(GAUSS_KINDS)]
+                hbar = rng.choice([2.0, 1.0])
+                sf.hbar = hbar
+                V2 = gaussian_cov_case(rng, rs, k, branch)
+                r = [rng.choice([0.0, 0.0, 0.3, -0.5]) for _ in range(2 * k)]
+                op = ops.Gaussian(V2 * hbar / 2, np.array(r))
+                kw = {}
+                case["kw"] = {}
+                V2 = V2 * hbar / 2 / (hbar / 2)
+                D = np.diag(V2)
+                is_diag = bool(np.all(V2 == np.diag(D)))
+                BD = xpxp_of(V2)
+                blocks = [BD[2 * i:2 * i + 2, 2 * i:2 * i + 2] for i in range(k)]
+                from scipy.linalg import block_diag
+                is_bd = (not is_diag) and bool(np.all(BD == block_diag(*blocks)))
+                pure = bool(abs(np.linalg.det(V2) - 1.0) < 1e-6)
+                modes = []
+                with np.errstate(all="ignore"):
+                    for n_ in range(k):
+                        v = blocks[n_]
+                        nb = 0.5 * (D[n_] - 1.0)
+                        modes.append(dict(
+                            diagBig=bool(abs(D[n_] - 1) >= dtol), diagR=dec02.fr(_finite(abs(np.log(D[n_]) / 2))),
+                            diagSmall=bool(D[n_] < 1), rotBig=bool(not np.all(v - np.identity(2) < dtol)),
+                            rotR=dec02.fr(_finite(abs(np.arccosh(np.sum(np.diag(v)) / 2)) / 2)),
+                            rotPhi=dec02.fr(_finite(np.arctan2(-2 * v[0, 1], v[1, 1] - v[0, 0]))),
+                            thBig=bool(nb >= dtol), thNbar=dec02.fr(nb), wBig=bool(abs(op.nbar[n_]) >= dtol),
+                            wNbar=dec02.fr(op.nbar[n_])))
+                named = [("S", op.S)]
+                req = dict(op="c02.matrix_template", kind=kind, reg=regidx, pi=dec02.fr(math.pi), pure=pure, is_diag=is_diag,
+                           is_block_diag=is_bd, thermal_diag=bool(is_diag and np.all(D[:k] == D[k:])), modes=modes,
+                           xdisp=[[dec02.fr(u), bool(u != 0)] for u in r[:k]], pdisp=[[dec02.fr(u), bool(u != 0)] for u in r[k:]])
+                case.update(V2=dec02.enc(V2), r=r, hbar=hbar, branch=branch)
+            real = xcanon_real(op._decompose(reg, **kw), named)
+        except ValueError:
+            ctx.tally("matrix-template:factorisation-rejected-input")
+            sf.hbar = 2.0
+            continue
+        except Exception as e:  # noqa: BLE001
+            sf.hbar = 2.0
+            ctx.fail(f"raises:matrix-template:{kind}:{type(e).__name__}", f"{kind} _decompose raised {type(e).__name__}: {e}",
+                     dict(kind="none", case=case))
+            continue
+        sf.hbar = 2.0
+        cases.append((case, real))
+        reqs.append(req)
+        ctx.count(f"matrix-template:{kind}:{case.get('branch', case.get('skind', ''))}", case, True,
+                  sample=dict(kind=kind, targets=regidx, kw=case["kw"]))
+        for d in real:
+            if d["cls"] == "Interferometer":
+                ctx.tally(f"nested-interferometer:mesh={d['extra']['mesh']}:drop={d['extra']['drop_identity']}")
+    for (case, real), res in zip(cases, ctx.lean(reqs)):
+        ctx.corr_cases += 1
+        if isinstance(res, dict) and "__error__" in res:
+            ctx.disagree("matrix-template", case, res, real)
+            continue
+        d = xsame(res, real)
+        if d:
+            ctx.disagree("matrix-template", case, d, real)
+
+
+def xpxp_of(M):
+    n = M.shape[0] // 2
+    perm = [j for i in range(n) for j in (i, i + n)]
+    return M[np.ix_(perm, perm)]
+
+
+# ------------------------------------------------------------------ sharing, history, holes, primitives (lessons 1-3, 5)
+
+def snapshot_op(op):
+    """deep, comparable snapshot of an operation's observable fields"""
+    ps = []
+    for x in op.p:
+        try:
+            ps.append(str(np.round(np.asarray(x, dtype=complex), 12).tolist()))
+        except Exception:  # noqa: BLE001
+            ps.append(str(x))
+    return json.dumps([type(op).__name__, ps, bool(getattr(op, "dagger", False)),
+                       [str(getattr(op, a, None)) for a in ("mesh", "drop_identity", "vacuum", "decomp", "tol", "identity")]])
+
+
+def rand_decomposable(rng, rs, k_max=4):
+    """(spec-op without regs, number of modes) of a random decomposable operation, scalar or matrix"""
+    if rng.random() < 0.55:
+        cls = rng.choice(SCALAR1 + SCALAR2)
+        return dict(cls=cls, pars=scalar_pars(rng, cls, small=False), dagger=rng.random() < 0.6), nmodes(cls)
+    op = rand_matrix_op(rng, rs, k_max)
+    k = len(op.pop("regs"))
+    if op["cls"] == "Gaussian":
+        op["kw"]["decomp"] = True
+    return op, k
+
+
+def history_case(ctx, sf, op, k, regsA, regsB, big, rp):
+    """decompose called twice on ONE object (and once on other targets) = decomposition of a fresh equal object;
+    the object itself (parameters, flags) is left untouched"""
+    spec0 = dict(n=big, ops=[])
+    prog = dec02.build_prog(spec0)
+    name = op["cls"] + (".H" if op.get("dagger") else "")
+    try:
+        o = dec02.build_prog(dict(n=big, ops=[dict(op, regs=regsA)])).circuit[0].op
+        before = snapshot_op(o)
+        first = [content(c) for c in o.decompose([prog.register[i] for i in regsA])]
+        other = [content(c) for c in o.decompose([prog.register[i] for i in regsB])]
+        second = [content(c) for c in o.decompose([prog.register[i] for i in regsA])]
+        after = snapshot_op(o)
+        fresh = dec02.build_prog(dict(n=big, ops=[dict(op, regs=regsA)])).circuit[0].op
+        want = [content(c) for c in fresh.decompose([prog.register[i] for i in regsA])]
+        freshB = dec02.build_prog(dict(n=big, ops=[dict(op, regs=regsB)])).circuit[0].op
+        wantB = [content(c) for c in freshB.decompose([prog.register[i] for i in regsB])]
+    except ValueError:
+        ctx.tally("history:factorisation-rejected-input")
+        return
+    except Exception as e:  # noqa: BLE001
+        ctx.fail(f"raises:history:{name}:{type(e).__name__}", f"{name}.decompose raised {type(e).__name__}: {e}", rp)
+        return
+    ctx.oracle_cases += 1
+    if before != after:
+        ctx.fail(f"history:{op['cls']}:decompose-modifies-the-operation", f"{name}.decompose changed the operation object", rp)
+    elif first != want or second != want:
+        which = "first" if first != want else "second"
+        ctx.fail(f"history:{op['cls']}:repeated-decompose-differs",
+                 f"{name} on {regsA}: the {which} decompose() of one object differs from the decomposition of a fresh equal object", rp)
+    elif other != wantB:
+        ctx.fail(f"history:{op['cls']}:decompose-depends-on-earlier-call",
+                 f"{name}: decompose on {regsB} after a call on {regsA} differs from a fresh object's", rp)
+
+
+def driver_history_case(ctx, sf, spec, cname, rp):
+    """Compiler.decompose twice on ONE circuit with shared Operation instances: same output, inputs untouched"""
+    from strawberryfields.compilers import compiler_db
+    try:
+        prog = dec02.build_prog(spec, op_cache={})
+        circuit = list(prog.circuit)
+        before = [snapshot_op(c.op) for c in circuit]
+        comp = compiler_db[cname]()
+        out1 = [content(c) for c in comp.decompose(circuit)]
+        out2 = [content(c) for c in comp.decompose(circuit)]
+        after = [snapshot_op(c.op) for c in circuit]
+        want = [content(c) for c in compiler_db[cname]().decompose(list(dec02.build_prog(spec).circuit))]
+    except ValueError:
+        ctx.tally("history:factorisation-rejected-input")
+        return
+    except Exception as e:  # noqa: BLE001
+        if type(e).__name__ in ("CircuitError", "NotImplementedError"):
+            ctx.tally("history:driver-rejects")
+            return
+        ctx.fail(f"raises:driver-history:{type(e).__name__}", f"Compiler.decompose raised {type(e).__name__}: {e}", rp)
+        return
+    ctx.oracle_cases += 1
+    if before != after:
+        ctx.fail("history:driver:modifies-input-operations", f"{cname}: Compiler.decompose changed the operations of its input", rp)
+    elif out1 != want or out2 != want:
+        ctx.fail("history:driver:shared-or-repeated-differs",
+                 f"{cname}: decomposing a circuit with shared operation objects ({'first' if out1 != want else 'second'} call) differs "
+                 f"from decomposing the same circuit built from fresh objects", rp)
+
+
+def oracle_history(ctx, sf):
+    rng, rs = ctx.rng, ctx.nprng(6)
+    for it in range(ctx.n(70, 1200)):
+        op, k = rand_decomposable(rng, rs)
+        big = 13
+        regsA = rng.sample(range(big), k)
+        regsB = sorted(rng.sample(range(big), k), reverse=True)
+        rp = dict(kind="history", op=op, k=k, regsA=regsA, regsB=regsB, big=big)
+        ctx.count(f"history:{op['cls']}", dict(o=str(op)[:300], a=regsA, b=regsB), True,
+                  sample=dict(cls=op["cls"], dagger=op.get("dagger"), targets=regsA, second_targets=regsB))
+        history_case(ctx, sf, op, k, regsA, regsB, big, rp)
+    pool = SCALAR1 + SCALAR2
+    for it in range(ctx.n(45, 600)):
+        cname = COMPILERS[it % 3]
+        n = 12
+        base = []
+        for _ in range(rng.randint(1, 3)):
+            cls = rng.choice(pool if cname != "bosonic" else [c for c in pool if c != "sMZgate"])
+            base.append(dict(cls=cls, pars=scalar_pars(rng, cls), dagger=rng.random() < 0.6))
+        if cname != "bosonic" and rng.random() < 0.4:
+            mop = rand_matrix_op(rng, rs, 4)
+            mop.pop("regs")
+            base.append(mop)
+        ops_ = []
+        for _ in range(rng.randint(3, 7)):      # every operation object is used several times, on different targets
+            b = rng.choice(base)
+            k = nmodes(b["cls"]) if b["cls"] not in dec02.MATRIX_CLASSES else _matrix_modes(b)
+            ops_.append(dict(b, regs=rng.sample(range(n), k)))
+        spec = dict(n=n, ops=ops_)
+        rp = dict(kind="driver-history", spec=spec, compiler=cname)
+        ctx.count(f"history:driver:{cname}", dict(s=str(spec)[:400]), True)
+        driver_history_case(ctx, sf, spec, cname, rp)
+
+
+def _matrix_modes(op):
+    M = np.asarray(dec02.dec(op["pars"][0]))
+    k = M.shape[0]
+    if op["cls"] in ("GaussianTransform", "Gaussian"):
+        return k // 2
+    if op["cls"] == "BipartiteGraphEmbed" and op.get("kw", {}).get("edges"):
+        return 2 * k
+    return k
+
+
+PRIMS = ["Dgate", "Rgate", "Sgate", "BSgate"]
+
+
+def oracle_holes_sharing(ctx, sf):
+    """shared Operation instances applied several times; registers with holes; descending and multi-digit mode indices;
+    natively applied primitives with the inverse flag (Gate.apply) — all against the independent reference"""
+    rng = ctx.rng
+    for it in range(ctx.n(60, 900)):
+        backend = ("gaussian", "bosonic", "gaussian", "fock")[it % 4]
+        fock = backend == "fock"
+        n = 3 if fock else rng.choice([5, 12])
+        classes = SCALAR1 + SCALAR2 + PRIMS
+        if backend == "bosonic":
+            classes = [c for c in classes if c != "sMZgate"]
+        pre = prefix_ops(rng, min(n, 4), fock=fock)
+        if n > 4:       # move the correlated prefix to scattered (multi-digit) modes
+            where = rng.sample(range(n), 4)
+            pre = [dict(o, regs=[where[r] for r in o["regs"]]) for o in pre]
+        dead = []
+        if not fock and rng.random() < 0.7:
+            dead = [rng.randrange(n)]           # a mode deleted before the operations under test: register with a hole
+            pre.append(dict(cls="Del", regs=dead, pars=[]))
+        live = [m for m in range(n) if m not in dead]
+        base = []
+        for _ in range(2):
+            cls = rng.choice(classes)
+            base.append(dict(cls=cls, pars=scalar_pars(rng, cls, small=True), dagger=rng.random() < 0.6))
+        ops_ = []
+        for j in range(rng.randint(2, 4)):      # the same operation objects on several target tuples
+            b = base[j % 2]
+            regs = rng.sample(live, nmodes(b["cls"]))
+            if j == 1 and len(regs) == 2:
+                regs = sorted(regs, reverse=True)
+            ops_.append(dict(cls=b["cls"], pars=b["pars"], regs=regs, **({"dagger": True} if b["dagger"] else {})))
+        spec = dict(n=n, ops=pre + ops_)
+        rp = dict(kind="shared", spec=spec, backend=backend, hbar=2.0, shared=True)
+        names = "+".join(sorted({o["cls"] + (".H" if o.get("dagger") else "") for o in ops_}))
+        ctx.count(f"shared-holes:{backend}:n={n}:hole={bool(dead)}", dict(s=str(spec)[:600], b=backend), True,
+                  sample=dict(ops=ops_, deleted=dead, n=n, backend=backend))
+        try:
+            compare_to_reference(ctx, sf, spec, backend, 2.0, rp, f"shared-holes:{names}:{backend}",
+                                 f"{names} (shared objects, deleted modes {dead}) on {[o['regs'] for o in ops_]}")
+        except Exception as e:  # noqa: BLE001
+            ctx.fail(f"raises:shared-holes:{backend}:{type(e).__name__}", f"{names} on {backend} raised {type(e).__name__}: {e}", rp)
+
+
+def oracle_tolerance(ctx, sf):
+    """the `tol` argument reaches the factorisation: a unitary off by ~1e-5 is accepted with tol=1e-3 by every mesh,
+    alone and nested in BipartiteGraphEmbed, and the emitted circuit is U to that accuracy"""
+    from strawberryfields import ops
+    rng, rs = ctx.rng, ctx.nprng(7)
+    for it in range(ctx.n(21, 210)):
+        mesh = MESHES[it % 7]
+        m = rng.randint(3, 5)
+        U = unitary(rs, m, "haar")
+        Un = U + 1e-5 * (rs.standard_normal((m, m)) + 1j * rs.standard_normal((m, m)))
+        prog = sf.Program(m)
+        rp = dict(kind="tolerance", U=dec02.enc(Un), mesh=mesh)
+        ctx.count(f"tolerance:{mesh}", dict(m=mesh, it=it), True)
+        tolerance_case(ctx, sf, Un, mesh, rp)
+
+
+def tolerance_case(ctx, sf, Un, mesh, rp):
+    from strawberryfields import ops
+    m = Un.shape[0]
+    prog = sf.Program(m)
+    try:
+        cmds = ops.Interferometer(Un, mesh=mesh, tol=1e-3).decompose(list(prog.register))
+    except Exception as e:  # noqa: BLE001
+        ctx.fail(f"tolerance:{mesh}:tol-not-honoured", f"Interferometer(U, mesh={mesh}, tol=1e-3) with |UU^+ - 1| ~ 1e-5 raised "
+                                                       f"{type(e).__name__}: {e}", rp)
+        return
+    ctx.oracle_cases += 1
+    W = dec02.circuit_unitary(cmds, m)
+    if np.max(np.abs(W - Un)) > 2e-3:
+        ctx.fail(f"tolerance:{mesh}:circuit-is-not-U", f"mesh {mesh}: circuit differs from the (almost unitary) input by "
+                                                      f"{np.max(np.abs(W - Un)):.3g}", rp)
+
+
+# ------------------------------------------------------------------ options reach the nested decompositions (lesson 4)
+
+def nested_interferometers(cmds, kw, depth=0):
+    """all Interferometer commands reachable from `cmds`, expanding GaussianTransform with the same keywords"""
+    out = []
+    for c in cmds:
+        name = type(c.op).__name__
+        if name == "Interferometer":
+            out.append(c)
+        elif name == "GaussianTransform" and depth < 3:
+            out += nested_interferometers(c.op.decompose(c.reg, **{k: v for k, v in kw.items() if k == "mesh"}), kw, depth + 1)
+    return out
+
+
+def options_case(ctx, sf, spec, kw, rp):
+    """RULE: an option given to decompose() is carried by every interferometer the decomposition creates"""
+    try:
+        prog = dec02.build_prog(spec)
+        cmd = prog.circuit[0]
+        inter = nested_interferometers(cmd.op.decompose(cmd.reg, **kw), kw)
+    except ValueError:
+        ctx.tally("options:factorisation-rejected-input")
+        return
+    except Exception as e:  # noqa: BLE001
+        ctx.fail(f"raises:options:{spec['ops'][0]['cls']}:{type(e).__name__}", f"decompose(**{kw}) raised {type(e).__name__}: {e}", rp)
+        return
+    ctx.oracle_cases += 1
+    cls = spec["ops"][0]["cls"]
+    honoured = ["mesh"] + (["drop_identity", "tol"] if cls == "BipartiteGraphEmbed" else [])
+    for c in inter:
+        for k in honoured:
+            if k in kw and getattr(c.op, k) != kw[k]:
+                ctx.fail(f"option-not-honoured:{k}:{cls}",
+                         f"{cls}.decompose({k}={kw[k]!r}) creates an Interferometer on {[r.ind for r in c.reg]} with {k}={getattr(c.op, k)!r}", rp)
+                return
+
+
+def compiler_options_case(ctx, sf, spec, cname, rp):
+    """RULE: the keywords a compiler lists for a decomposition reach the operations that decomposition creates"""
+    from strawberryfields.compilers import compiler_db
+    comp = compiler_db[cname]()
+    try:
+        out = comp.decompose(list(dec02.build_prog(spec).circuit))
+    except Exception as e:  # noqa: BLE001
+        ctx.fail(f"raises:compiler-options:{cname}:{type(e).__name__}", f"{cname}.decompose raised {type(e).__name__}: {e}", rp)
+        return
+    ctx.oracle_cases += 1
+    kw = comp.decompositions[spec["ops"][0]["cls"]]
+    for c in out:
+        if type(c.op).__name__ == "Interferometer":
+            for k, v in kw.items():
+                if hasattr(c.op, k) and getattr(c.op, k) != v:
+                    ctx.fail(f"compiler-option-not-honoured:{cname}:{k}",
+                             f"{cname} lists {k}={v!r} for {spec['ops'][0]['cls']}, but the compiled Interferometer on "
+                             f"{[r.ind for r in c.reg]} has {k}={getattr(c.op, k)!r}", rp)
+                    return
+
+
+def oracle_options(ctx, sf):
+    from strawberryfields.compilers import compiler_db
+    rng, rs = ctx.rng, ctx.nprng(9)
+    for it in range(ctx.n(36, 400)):
+        cls = ("GraphEmbed", "BipartiteGraphEmbed", "GaussianTransform")[it % 3]
+        k = rng.choice([2, 3, 4]) if cls != "BipartiteGraphEmbed" else rng.choice([2, 4])
+        n = k + rng.choice([0, 8])
+        regs = rng.sample(range(n), k)
+        kw = dict(mesh=rng.choice(MESHES[1:6]))
+        if cls == "GraphEmbed":
+            A = np.triu(rs.integers(0, 2, (k, k)).astype(float), 1)
+            A = A + A.T
+            A[0, -1] = A[-1, 0] = 1.0
+            op = dict(cls=cls, regs=regs, pars=[dec02.enc(A)], kw=dict(mean_photon_per_mode=0.3))
+        elif cls == "BipartiteGraphEmbed":
+            B = np.round(rs.uniform(0.1, 1.0, (k // 2, k // 2)), 2)
+            op = dict(cls=cls, regs=regs, pars=[dec02.enc(B)], kw=dict(mean_photon_per_mode=0.3, edges=True,
+                                                                     drop_identity=rng.random() < 0.5))
+            kw.update(drop_identity=rng.random() < 0.5, tol=rng.choice([1e-5, 1e-7]))
+        else:
+            op = dict(cls=cls, regs=regs, pars=[dec02.enc(d17.symplectic_case(rs, k, rng.choice(["generic", "signs", "one_unsqueezed"])))],
+                      kw=dict(vacuum=False))
+        spec = dict(n=n, ops=[op])
+        rp = dict(kind="options", spec=spec, kw=kw)
+        ctx.count(f"options:{cls}:mesh={kw['mesh']}", dict(s=str(spec)[:300], k=kw), True, sample=dict(cls=cls, kw=kw, targets=regs))
+        options_case(ctx, sf, spec, kw, rp)
+    with_kw = [(c, name) for c in sorted(compiler_db) for name, v in (getattr(compiler_db[c], "decompositions", {}) or {}).items() if v]
+    for it in range(ctx.n(10, 100)):
+        if not with_kw:
+            break
+        cname, name = with_kw[it % len(with_kw)]
+        if name != "BipartiteGraphEmbed":
+            ctx.tally(f"options:compiler-kwargs-for-unmodelled-class:{name}")
+            continue
+        kb = rng.choice([1, 2, 3])
+        spec = dict(n=8, ops=[dict(cls=name, regs=rng.sample(range(8), 2 * kb),
+                                   pars=[dec02.enc(np.round(rs.uniform(0.1, 1.0, (kb, kb)), 2))],
+                                   kw=dict(mean_photon_per_mode=0.3, edges=True))])
+        rp = dict(kind="compiler-options", spec=spec, compiler=cname)
+        ctx.count(f"options:compiler:{cname}", dict(s=str(spec)[:300]), True)
+        compiler_options_case(ctx, sf, spec, cname, rp)
+
+
 # ================================================================== entry points
 
 def run_corpus(ctx, sf):
@@ -808,11 +1358,16 @@ def run(ctx, sf):
         corr_templates(ctx, sf)
         corr_driver(ctx, sf)
         corr_mesh(ctx, sf)
+        corr_matrix_templates(ctx, sf)
     oracle_scalar(ctx, sf)
     oracle_native_vs_decomposed(ctx, sf)
     oracle_interferometer(ctx, sf)
     oracle_gaussian_prep(ctx, sf)
     oracle_matrix_ops(ctx, sf)
+    oracle_history(ctx, sf)
+    oracle_holes_sharing(ctx, sf)
+    oracle_tolerance(ctx, sf)
+    oracle_options(ctx, sf)
     sf.hbar = 2.0
 
 
@@ -827,6 +1382,8 @@ def search(ctx, sf):
 
 def replay_one(ctx, sf, rp):
     kind = rp["kind"]
+    if kind == "none":
+        return
     if kind == "scalar":
         spec = rp["spec"]
         op = spec["ops"][-1]
@@ -838,6 +1395,18 @@ def replay_one(ctx, sf, rp):
         interferometer_case(ctx, sf, np.asarray(dec02.dec(rp["U"])), rp["mesh"], rp["drop"], rp["reg"], rp["big"], rp)
     elif kind == "gaussian-prep":
         gaussian_case(ctx, sf, np.asarray(dec02.dec(rp["V2"])), rp["r"], rp["reg"], rp["n"], rp["hbar"], rp["backend"], rp)
+    elif kind == "history":
+        history_case(ctx, sf, rp["op"], rp["k"], rp["regsA"], rp["regsB"], rp["big"], rp)
+    elif kind == "driver-history":
+        driver_history_case(ctx, sf, rp["spec"], rp["compiler"], rp)
+    elif kind == "shared":
+        compare_to_reference(ctx, sf, rp["spec"], rp["backend"], rp["hbar"], rp, "shared-holes:replay", "replay")
+    elif kind == "options":
+        options_case(ctx, sf, rp["spec"], rp["kw"], rp)
+    elif kind == "compiler-options":
+        compiler_options_case(ctx, sf, rp["spec"], rp["compiler"], rp)
+    elif kind == "tolerance":
+        tolerance_case(ctx, sf, np.asarray(dec02.dec(rp["U"])), rp["mesh"], rp)
     elif kind == "matrix":
         if "mkind" in rp:
             matrix_case(ctx, sf, rp)
